@@ -552,6 +552,155 @@ theorem lookup_foldl_mapInsert (pairs base : List (SVal × SVal)) (k : SVal) :
       · have : (p.1 == k) = false := by simpa using hpk
         simp [this, hother p.1 p.2 base hpk]
 
+/-! ### Callbacks over whole command lines -/
+
+
+/-- the arguments with which the callback of option `r` has run, in order, according to the log -/
+def cbArgs (r : ORef) (log : List Event) : List (Option SVal) :=
+  log.filterMap fun e => match e with
+    | .cb r' a => if r' = r then some a else none
+    | _ => none
+
+theorem cbArgs_append (r : ORef) (l1 l2 : List Event) : cbArgs r (l1 ++ l2) = cbArgs r l1 ++ cbArgs r l2 := by
+  simp [cbArgs, List.filterMap_append]
+
+/-- `Option.Set` appends to the log nothing but runs of that option's own callback -/
+theorem optSet_log (E : Env) (help : HelpFn) (P : Parser) (r' : ORef) (v : Option Bytes) (log : List Event) :
+    ∃ evs, (optSet E help P r' v log).2.1 = log ++ evs ∧ ∀ e ∈ evs, ∃ a, e = .cb r' a := by
+  unfold optSet
+  simp only
+  split
+  · exact ⟨[], by simp, by simp⟩
+  · split
+    · unfold optCall
+      simp only
+      split
+      · split
+        · exact ⟨[], by simp, by simp⟩
+        · split
+          · exact ⟨[], by simp, by simp⟩
+          · exact ⟨[_], rfl, by intro e he; simp at he; exact ⟨_, he⟩⟩
+      · split
+        · exact ⟨[], by simp, by simp⟩
+        · exact ⟨[_], rfl, by intro e he; simp at he; exact ⟨_, he⟩⟩
+    · split
+      · exact ⟨[], by simp, by simp⟩
+      · exact ⟨[], by simp, by simp⟩
+
+theorem optSet_cbArgs_other (E : Env) (help : HelpFn) (P : Parser) (r' r : ORef) (v : Option Bytes) (log : List Event)
+    (h : r' ≠ r) : cbArgs r (optSet E help P r' v log).2.1 = cbArgs r log := by
+  obtain ⟨evs, he, hall⟩ := optSet_log E help P r' v log
+  rw [he, cbArgs_append]
+  have : cbArgs r evs = [] := by
+    unfold cbArgs
+    rw [List.filterMap_eq_nil_iff]
+    intro e hmem
+    obtain ⟨a, rfl⟩ := hall e hmem
+    simp [h]
+  rw [this]; simp
+
+theorem markSet_cb (o : Opt) : o.markSet.cb = o.cb := by
+  unfold Opt.markSet Opt.empty
+  simp only
+  split <;> (try split) <;> rfl
+
+/-- an accepted occurrence of a callback option with an argument runs the callback exactly once,
+    with the converted argument -/
+theorem optSet_cbArgs_self (E : Env) (help : HelpFn) (P : Parser) (r : ORef) (hr : r.valid P) (a : Bytes) (log : List Event)
+    (s : Sc) (e : Bool) (hty : (P.opt r).ty = .func (some s) e) (hcb : (P.opt r).cb ≠ 1)
+    (hacc : (optSet E help P r (some a) log).2.2 = none) :
+    ∃ sv, convertSc E (P.opt r).tag a s = .ok sv ∧
+      cbArgs r (optSet E help P r (some a) log).2.1 = cbArgs r log ++ [some sv] := by
+  obtain ⟨hty', htag, hch, _, _⟩ := markSet_fields (P.opt r)
+  have hcb' := markSet_cb (P.opt r)
+  unfold optSet at hacc ⊢
+  simp only at hacc ⊢
+  cases hrej : choiceRejected (P.opt r).markSet (some a) with
+  | true => simp [hrej] at hacc
+  | false =>
+    simp only [hrej, Bool.false_eq_true, if_false] at hacc ⊢
+    have hfun : (P.opt r).markSet.ty.isFunc = true := by rw [hty', hty]; rfl
+    simp only [hfun, if_true] at hacc ⊢
+    have hopt1 : (P.modOpt r fun _ => (P.opt r).markSet).opt r = (P.opt r).markSet := Parser.opt_modOpt_same P r _ hr
+    unfold optCall at hacc ⊢
+    simp only [hopt1, hty', hty, htag, hcb'] at hacc ⊢
+    cases hc : convertSc E (P.opt r).tag a s with
+    | error m => simp [hc] at hacc
+    | ok sv =>
+      simp only [hc, hcb, if_false] at hacc ⊢
+      exact ⟨sv, rfl, by rw [cbArgs_append]; simp [cbArgs]⟩
+
+/-- **A callback has run once per occurrence, in order, with the converted argument**: after any
+    accepted command line of any length, the runs of the callback of option `r` recorded in the log
+    are those recorded before, followed by one run per occurrence of `r`, in the order the
+    occurrences were typed, each with the conversion of that occurrence's argument; occurrences of
+    other options (callbacks or not) in between add none. -/
+theorem callback_runs_once_per_occurrence_in_order (E : Env) (help : HelpFn) (ci : Nat) (r : ORef) (s : Sc) (e : Bool)
+    (items : List Occ) :
+    ∀ (P : Parser) (log : List Event), Accepted E help ci P log items → r.valid P →
+      (P.opt r).ty = .func (some s) e → (P.opt r).cb ≠ 1 →
+      (∀ it ∈ items, P.lookupLong ci it.1 = some r → it.2 ≠ none) →
+      ∃ vs, ConvAll E (P.opt r).tag s (argsOf P ci r items) vs ∧
+        cbArgs r (setAll E help ci P log items).2 = cbArgs r log ++ vs.map some := by
+  induction items with
+  | nil =>
+    intro P log _ _ _ _ _
+    exact ⟨[], by simp [argsOf, ConvAll], by simp [setAll]⟩
+  | cons it rest ih =>
+    intro P log hacc hr hty hcb hargd
+    obtain ⟨r', v, hl, hv, he, hrest⟩ := hacc
+    have hd1 := optSet_decl E help P r' v log
+    have hr1 : r.valid (optSet E help P r' v log).1 := hd1.symm.valid r hr
+    have hopt1 : ((optSet E help P r' v log).1.opt r).decl = (P.opt r).decl := hd1.opt r
+    have hty1 : ((optSet E help P r' v log).1.opt r).ty = .func (some s) e := by
+      have : ((optSet E help P r' v log).1.opt r).decl.ty = (P.opt r).decl.ty := by rw [hopt1]
+      exact this.trans hty
+    have htag1 : ((optSet E help P r' v log).1.opt r).tag = (P.opt r).tag := by
+      have : ((optSet E help P r' v log).1.opt r).decl.tag = (P.opt r).decl.tag := by rw [hopt1]
+      exact this
+    have hcb1 : ((optSet E help P r' v log).1.opt r).cb ≠ 1 := by
+      have : ((optSet E help P r' v log).1.opt r).decl.cb = (P.opt r).decl.cb := by rw [hopt1]
+      have h2 : ((optSet E help P r' v log).1.opt r).cb = (P.opt r).cb := this
+      rw [h2]; exact hcb
+    have hargd1 : ∀ it' ∈ rest, (optSet E help P r' v log).1.lookupLong ci it'.1 = some r → it'.2 ≠ none := by
+      intro it' hit' hl'
+      rw [hd1.lookupLong] at hl'
+      exact hargd it' (by simp [hit']) hl'
+    obtain ⟨vs, hfa, hlog⟩ := ih _ _ hrest hr1 hty1 hcb1 hargd1
+    rw [argsOf_sameDecl hd1] at hfa
+    rw [htag1] at hfa
+    have hstep : setAll E help ci P log (it :: rest) =
+        setAll E help ci (optSet E help P r' v log).1 (optSet E help P r' v log).2.1 rest := by
+      conv => lhs; unfold setAll
+      simp only [hl, hv]
+    rw [hstep, hlog]
+    by_cases hrr : r' = r
+    · subst hrr
+      have hne := hargd it (by simp) hl
+      obtain ⟨V, hV⟩ := Option.ne_none_iff_exists'.mp hne
+      have hvs : ∃ a, v = some a := by
+        rw [hV] at hv
+        unfold occArg at hv
+        simp only at hv
+        split at hv
+        · cases hq : (if tagGet (P.opt r').tag (B "unquote") ≠ B "false" then unquoteIfPossible V else some V) with
+          | none => rw [hq] at hv; simp at hv
+          | some a => rw [hq] at hv; simp at hv; exact ⟨a, hv.symm⟩
+        · simp at hv
+      obtain ⟨a, rfl⟩ := hvs
+      obtain ⟨sv, hcs, hself⟩ := optSet_cbArgs_self E help P r' hr a log s e hty hcb he
+      have hargs : argsOf P ci r' (it :: rest) = a :: argsOf P ci r' rest := by
+        simp [argsOf, hl, hv]
+      rw [hargs, hself]
+      exact ⟨sv :: vs, ⟨hcs, hfa⟩, by simp⟩
+    · have hargs : argsOf P ci r (it :: rest) = argsOf P ci r rest := by
+        unfold argsOf
+        simp only [List.filterMap_cons, hl]
+        simp [hrr]
+      rw [hargs, optSet_cbArgs_other E help P r' r v log hrr]
+      exact ⟨vs, hfa, rfl⟩
+
+
 /-! ### Non-vacuity -/
 
 /-- a parser with one string option `--n` and one string-slice option `--l` -/
